@@ -127,7 +127,7 @@ Qed.
 
 (* ---------------------------------------------------------------- node functions *)
 Lemma fv_walk_not c : incl (free_vars (walk_not c)) (free_vars c).
-Proof. destruct c; simpl; try apply incl_refl. intros x []. Qed.
+Proof. destruct c; simpl; apply incl_refl. Qed.
 
 Definition jitems (k : bool) (args : list expr) : list expr :=
   flat_map (fun a => match junct_args k a with Some ss => ss | None => [a] end) args.
@@ -213,8 +213,8 @@ Proof.
   induction args as [|a r IH]; [apply incl_refl|].
   cbn [flat1 flat_map]. fold (flat1 t r). rewrite fvl_app, fvl_cons.
   apply incl_app; [apply incl_appl | apply incl_appr; exact IH].
-  destruct a; try (cbn; rewrite app_nil_r; apply incl_refl); destruct t;
-    try (cbn; rewrite app_nil_r; apply incl_refl).
+  assert (D : incl (fvl [a]) (free_vars a)) by (cbn; rewrite app_nil_r; apply incl_refl).
+  destruct a; try exact D; destruct t; try exact D.
   - rewrite fv_EPlus. apply incl_refl.
   - rewrite fv_ETimes. apply incl_refl.
 Qed.
@@ -303,7 +303,7 @@ Proof.
   apply memN_false in Hocc.
   assert (Ht : incl (free_vars t) (free_vars c)).
   { destruct Hc as [->| ->]; cbn [free_vars]; [apply incl_appr|apply incl_appl]; apply incl_refl. }
-  intros w. cbn [free_vars]. rewrite !in_fv_quant. rewrite fv_EAnd. intros [Hw Hn].
+  intros w. rewrite !fv_EExists, !in_fv_quant, fv_EAnd. intros [Hw Hn].
   assert (Hfv : In w (fvl (pre ++ c :: post)) /\ w <> x).
   { apply fv_subst in Hw. rewrite fv_mkAnd in Hw. destruct Hw as [[Hw Hx]|Hw].
     - split; [|exact Hx]. rewrite fvl_app in *. rewrite fvl_cons. rewrite !in_app_iff in *. tauto.
@@ -349,54 +349,36 @@ Proof. intros H1 H2. apply incl_app; [apply incl_appl|apply incl_appr]; assumpti
 Lemma incl_filter_mono {A} (f : A -> bool) (l l' : list A) : incl l l' -> incl (filter f l) (filter f l').
 Proof. intros H x. rewrite !filter_In. intros [Hx Hf]. split; [apply H; exact Hx|exact Hf]. Qed.
 
+Lemma simp_fv_gen G n : cfg_consts G -> (forall x, incl (free_vars (resimp G n x)) (free_vars x)) ->
+  forall e, incl (free_vars (simp G n e)) (free_vars e).
+Proof.
+  intros HG Hrs.
+    induction e using expr_ind'; autorewrite with simp_unfold; try apply incl_refl.
+    + rewrite fv_EFluent. apply (incl_tran (fv_walk_fluent _ _ _ HG)). apply fvl_map_incl; assumption.
+    + rewrite fv_EIFun. apply (incl_tran (fv_walk_ifun _ _ _ HG)). apply fvl_map_incl; assumption.
+    + rewrite fv_EAnd. apply (incl_tran (fv_walk_junct _ _)). apply fvl_map_incl; assumption.
+    + rewrite fv_EOr. apply (incl_tran (fv_walk_junct _ _)). apply fvl_map_incl; assumption.
+    + apply (incl_tran (fv_walk_not _)). exact IHe.
+    + apply (incl_tran (fv_walk_implies _ _)). cbn [free_vars]. apply incl_app2; assumption.
+    + apply (incl_tran (fv_walk_iff _ _)). cbn [free_vars]. apply incl_app2; assumption.
+    + apply (incl_tran (fv_walk_exists _ _ _ _ Hrs)). cbn [free_vars]. apply incl_filter_mono. exact IHe.
+    + apply (incl_tran (fv_walk_forall _ _)). cbn [free_vars]. apply incl_filter_mono. exact IHe.
+    + rewrite fv_EPlus. apply (incl_tran (fv_walk_arith _ _)). apply fvl_map_incl; assumption.
+    + apply (incl_tran (fv_walk_minus _ _)). cbn [free_vars]. apply incl_app2; assumption.
+    + rewrite fv_ETimes. apply (incl_tran (fv_walk_arith _ _)). apply fvl_map_incl; assumption.
+    + apply (incl_tran (fv_walk_div _ _)). cbn [free_vars]. apply incl_app2; assumption.
+    + apply (incl_tran (fv_walk_le _ _)). cbn [free_vars]. apply incl_app2; assumption.
+    + apply (incl_tran (fv_walk_lt _ _)). cbn [free_vars]. apply incl_app2; assumption.
+    + apply (incl_tran (fv_walk_equals _ _ _)). cbn [free_vars]. apply incl_app2; assumption.
+    + apply (incl_tran (proj1 fv_traj _)). exact IHe.
+    + apply (incl_tran (proj1 (proj2 fv_traj) _)). exact IHe.
+    + apply (incl_tran (proj1 (proj2 (proj2 (proj2 fv_traj))) _ _)). cbn [free_vars]. apply incl_app2; assumption.
+    + apply (incl_tran (proj2 (proj2 (proj2 (proj2 fv_traj))) _ _)). cbn [free_vars]. apply incl_app2; assumption.
+    + apply (incl_tran (proj1 (proj2 (proj2 fv_traj)) _)). exact IHe.
+Qed.
+
 Theorem simp_fv G : cfg_consts G -> forall n e, incl (free_vars (simp G n e)) (free_vars e).
 Proof.
-  intros HG. induction n as [|n IHn].
-  - (* no re-simplification below *)
-    assert (Hrs : forall x, incl (free_vars (resimp G 0 x)) (free_vars x)) by (intros x; apply incl_refl).
-    induction e using expr_ind'; autorewrite with simp_unfold; try apply incl_refl.
-    + rewrite fv_EFluent. apply (incl_tran (fv_walk_fluent _ _ _ HG)). apply fvl_map_incl; assumption.
-    + rewrite fv_EIFun. apply (incl_tran (fv_walk_ifun _ _ _ HG)). apply fvl_map_incl; assumption.
-    + rewrite fv_EAnd. apply (incl_tran (fv_walk_junct _ _)). apply fvl_map_incl; assumption.
-    + rewrite fv_EOr. apply (incl_tran (fv_walk_junct _ _)). apply fvl_map_incl; assumption.
-    + apply (incl_tran (fv_walk_not _)). exact IHe.
-    + apply (incl_tran (fv_walk_implies _ _)). cbn [free_vars]. apply incl_app2; assumption.
-    + apply (incl_tran (fv_walk_iff _ _)). cbn [free_vars]. apply incl_app2; assumption.
-    + apply (incl_tran (fv_walk_exists _ _ _ _ Hrs)). cbn [free_vars]. apply incl_filter_mono. exact IHe.
-    + apply (incl_tran (fv_walk_forall _ _)). cbn [free_vars]. apply incl_filter_mono. exact IHe.
-    + rewrite fv_EPlus. apply (incl_tran (fv_walk_arith _ _)). apply fvl_map_incl; assumption.
-    + apply (incl_tran (fv_walk_minus _ _)). cbn [free_vars]. apply incl_app2; assumption.
-    + rewrite fv_ETimes. apply (incl_tran (fv_walk_arith _ _)). apply fvl_map_incl; assumption.
-    + apply (incl_tran (fv_walk_div _ _)). cbn [free_vars]. apply incl_app2; assumption.
-    + apply (incl_tran (fv_walk_le _ _)). cbn [free_vars]. apply incl_app2; assumption.
-    + apply (incl_tran (fv_walk_lt _ _)). cbn [free_vars]. apply incl_app2; assumption.
-    + apply (incl_tran (fv_walk_equals _ _ _)). cbn [free_vars]. apply incl_app2; assumption.
-    + apply (incl_tran (proj1 fv_traj _)). exact IHe.
-    + apply (incl_tran (proj1 (proj2 fv_traj) _)). exact IHe.
-    + apply (incl_tran (proj1 (proj2 (proj2 (proj2 fv_traj))) _ _)). cbn [free_vars]. apply incl_app2; assumption.
-    + apply (incl_tran (proj2 (proj2 (proj2 (proj2 fv_traj))) _ _)). cbn [free_vars]. apply incl_app2; assumption.
-    + apply (incl_tran (proj1 (proj2 (proj2 fv_traj)) _)). exact IHe.
-  - assert (Hrs : forall x, incl (free_vars (resimp G (S n) x)) (free_vars x)) by (intros x; apply IHn).
-    induction e using expr_ind'; autorewrite with simp_unfold; try apply incl_refl.
-    + rewrite fv_EFluent. apply (incl_tran (fv_walk_fluent _ _ _ HG)). apply fvl_map_incl; assumption.
-    + rewrite fv_EIFun. apply (incl_tran (fv_walk_ifun _ _ _ HG)). apply fvl_map_incl; assumption.
-    + rewrite fv_EAnd. apply (incl_tran (fv_walk_junct _ _)). apply fvl_map_incl; assumption.
-    + rewrite fv_EOr. apply (incl_tran (fv_walk_junct _ _)). apply fvl_map_incl; assumption.
-    + apply (incl_tran (fv_walk_not _)). exact IHe.
-    + apply (incl_tran (fv_walk_implies _ _)). cbn [free_vars]. apply incl_app2; assumption.
-    + apply (incl_tran (fv_walk_iff _ _)). cbn [free_vars]. apply incl_app2; assumption.
-    + apply (incl_tran (fv_walk_exists _ _ _ _ Hrs)). cbn [free_vars]. apply incl_filter_mono. exact IHe.
-    + apply (incl_tran (fv_walk_forall _ _)). cbn [free_vars]. apply incl_filter_mono. exact IHe.
-    + rewrite fv_EPlus. apply (incl_tran (fv_walk_arith _ _)). apply fvl_map_incl; assumption.
-    + apply (incl_tran (fv_walk_minus _ _)). cbn [free_vars]. apply incl_app2; assumption.
-    + rewrite fv_ETimes. apply (incl_tran (fv_walk_arith _ _)). apply fvl_map_incl; assumption.
-    + apply (incl_tran (fv_walk_div _ _)). cbn [free_vars]. apply incl_app2; assumption.
-    + apply (incl_tran (fv_walk_le _ _)). cbn [free_vars]. apply incl_app2; assumption.
-    + apply (incl_tran (fv_walk_lt _ _)). cbn [free_vars]. apply incl_app2; assumption.
-    + apply (incl_tran (fv_walk_equals _ _ _)). cbn [free_vars]. apply incl_app2; assumption.
-    + apply (incl_tran (proj1 fv_traj _)). exact IHe.
-    + apply (incl_tran (proj1 (proj2 fv_traj) _)). exact IHe.
-    + apply (incl_tran (proj1 (proj2 (proj2 (proj2 fv_traj))) _ _)). cbn [free_vars]. apply incl_app2; assumption.
-    + apply (incl_tran (proj2 (proj2 (proj2 (proj2 fv_traj))) _ _)). cbn [free_vars]. apply incl_app2; assumption.
-    + apply (incl_tran (proj1 (proj2 (proj2 fv_traj)) _)). exact IHe.
+  intros HG. induction n as [|n IHn]; apply simp_fv_gen; auto.
+  intros x; apply incl_refl.
 Qed.
